@@ -210,7 +210,7 @@ def run_kani(overlay, filters, jobs=None, harness_timeout=None, total_timeout=36
 PLAYBACK_RE = re.compile(r"/// Test generated for harness `([^`]*)`\s*\n\s*///\s*\n\s*/// Check for `(\w+)`: \"(.*?)\"\s*\n\s*#\[test\]\s*\n\s*fn (\w+)\(\) \{(.*?)\n\s*\}\n", re.S)
 
 
-def counterexample(overlay, harness_full, features=None, timeout=900, returns=False):
+def counterexample(overlay, harness_full, features=None, timeout=1800, returns=False):
     """Asks Kani for the concrete values of a failing harness (concrete playback), then executes
     the harness natively on them against the real code (`cargo kani playback`).
     Returns a dict for the replay file."""
